@@ -12,7 +12,7 @@ import GoldModel.Drive.ExSpec
     param  := M t t t t | N t t t
     stmts  := [ stmt* ]
     stmt   := SA t t ex | SE ex | SR t ex | SC t | SV t t t t | SI t ex stmts tail
-            | SW t ex stmts t | SL t stmts t | SF t t t ex t ex step stmts t
+            | SW t ex stmts t | SL t stmts t | SF t t t ex t ex step stmts t | SX t ex stmts t | SU t stmts t ex
     tail   := TE t | TL t stmts t | TF t ex stmts tail
     step   := - | + t ex
 
@@ -92,6 +92,12 @@ partial def stmt : P (Stmt Ex)
     let (k, ws) ← tok ws; let (v, ws) ← tok ws; let (q, ws) ← tok ws; let (lo, ws) ← ex ws
     let (to, ws) ← tok ws; let (hi, ws) ← ex ws; let (st, ws) ← step ws; let (b, ws) ← stmts ws; let (e, ws) ← tok ws
     pure (.forS k v q lo to hi st b e, ws)
+  | "SX" :: ws => do
+    let (k, ws) ← tok ws; let (c, ws) ← ex ws; let (b, ws) ← stmts ws; let (e, ws) ← tok ws
+    pure (.foreachS k c b e, ws)
+  | "SU" :: ws => do
+    let (k, ws) ← tok ws; let (b, ws) ← stmts ws; let (u, ws) ← tok ws; let (c, ws) ← ex ws
+    pure (.repeatS k b u c, ws)
   | _ => none
 partial def stmtList : P (List (Stmt Ex))
   | "]" :: ws => some ([], ws)
